@@ -6,6 +6,7 @@ import astropy.units as u
 import pulsarbat as pb
 import dask
 import dask.array as da
+from dask.base import tokenize
 
 
 __all__ = [
@@ -47,9 +48,21 @@ class DispersionMeasure(u.SpecificTypeQuantity):
         tf_args = (coeff, N, dt, center_freq, ref_freq)
 
         if use_dask:
+            # Dask tokenizes scalar Quantities via str() (8 significant digits),
+            # so name the task by exact values: otherwise closely spaced
+            # channels would share one key, and one chirp.
+            exact = [
+                (np.asarray(a.value).tolist(), str(a.unit))
+                if isinstance(a, u.Quantity)
+                else a
+                for a in tf_args
+            ]
+            name = "_transfer_function-" + tokenize(exact)
             delayed_tf = dask.delayed(_transfer_function, pure=True)
             chirp = da.from_delayed(
-                delayed_tf(*tf_args), dtype=np.complex64, shape=(N,)
+                delayed_tf(*tf_args, dask_key_name=name),
+                dtype=np.complex64,
+                shape=(N,),
             )
         else:
             chirp = _transfer_function(*tf_args)
